@@ -14,6 +14,7 @@ import Driver.Ops.Reply
 import Driver.Ops.Sched
 import Driver.Ops.Server
 import Driver.Ops.Store
+import Driver.Ops.Wire
 open Slimta Slimta.Driver
 
 def dispatch (line : String) : String :=
@@ -34,6 +35,7 @@ def dispatch (line : String) : String :=
   | "sched" :: rest => schedOp rest
   | "server" :: rest => serverOp rest
   | "store" :: rest => storeOp rest
+  | "wire" :: rest => wireOp rest
   | _ => "bad-op"
 partial def loop (hin : IO.FS.Stream) (hout : IO.FS.Stream) : IO Unit := do
   let line ← hin.getLine
